@@ -15,6 +15,7 @@ const (
 	KBV
 	KInt
 	KFP // float64
+	KReal
 )
 
 type Sort struct {
@@ -25,6 +26,7 @@ type Sort struct {
 var SBool = Sort{KBool, 0}
 var SInt = Sort{KInt, 0}
 var SFP = Sort{KFP, 64}
+var SReal = Sort{KReal, 0}
 
 func BV(w int) Sort { return Sort{KBV, int32(w)} }
 
@@ -38,6 +40,8 @@ func (s Sort) String() string {
 		return "Int"
 	case KFP:
 		return "(_ FloatingPoint 11 53)"
+	case KReal:
+		return "Real"
 	}
 	return "?"
 }
@@ -1045,6 +1049,11 @@ func (p *Printer) emit(t *Term) {
 	case OInt2BV:
 		text = fmt.Sprintf("((_ int2bv %d)%s)", t.P1, p.args(t))
 	case OFPOp:
+		if len(t.A) == 0 {
+			p.defined[t.id] = t.Name
+			p.noteDef(t.id)
+			return
+		}
 		text = "(" + t.Name + p.args(t) + ")"
 	default:
 		text = "(" + opNames[t.Op] + p.args(t) + ")"
